@@ -821,7 +821,9 @@ class Conv:
             if not (d0 is not None and d0.split('.')[0] in NUMERIC_MODULES):
                 recv_rf = self.expr(recv)
         if self.on_call is not None:
-            self.on_call(n, name, recv, args, kw, recv_rf)
+            inl = self.on_call(n, name, recv, args, kw, recv_rf)
+            if inl is not None:
+                return inl
         if name is None or (isinstance(n.func, ast.Name) and n.func.id in self.env):
             # call through an expression / a local bound to a value
             return t.atom('callexpr', tuple([self.expr(n.func)] + args + kwv),
